@@ -45,16 +45,35 @@ def gen_procprog(rng: random.Random) -> dict:
     fut_counter = [0]
     note_counter = [0]
 
+    direct_used: set[int] = set()
+
     def new_fut() -> int:
         fut_counter[0] += 1
         return fut_counter[0] - 1
 
-    def gen_tree(depth: int) -> dict:
+    def leaf(in_tree: set, direct: bool) -> dict:
+        # a future may be awaited directly by one process AND be an input of combinators others wait on
+        if fut_counter[0] > 0 and rng.random() < 0.3:
+            f = rng.randrange(fut_counter[0])
+            if f not in in_tree and not (direct and f in direct_used):
+                in_tree.add(f)
+                if direct:
+                    direct_used.add(f)
+                return {"f": f}
+        f = new_fut()
+        in_tree.add(f)
+        if direct:
+            direct_used.add(f)
+        return {"f": f}
+
+    def gen_tree(depth: int, in_tree: set | None = None) -> dict:
+        if in_tree is None:
+            in_tree = set()
         r = rng.random()
         if depth >= 2 or r < 0.45:
-            return {"f": new_fut()}
+            return leaf(in_tree, direct=(depth == 0))
         kind = "any" if r < 0.75 else "all"
-        return {kind: [gen_tree(depth + 1) for _ in range(rng.randint(2, 3))]}
+        return {kind: [gen_tree(depth + 1, in_tree) for _ in range(rng.randint(2, 3))]}
 
     def gen_emit(existing_futs: bool = True) -> dict:
         if existing_futs and fut_counter[0] > 0 and rng.random() < 0.6:
@@ -71,16 +90,19 @@ def gen_procprog(rng: random.Random) -> dict:
             if r < 0.35:
                 steps.append({"op": "delay", "d": rng.choice(DELAYS_S),
                               "emits": [gen_emit() for _ in range(rng.choice([0, 0, 1, 2]))],
-                              "form": rng.choice(["bare", "tuple", "single"])})
+                              "form": rng.choice(["bare", "tuple", "single", "shared_empty"])})
+                if not steps[-1]["emits"] and rng.random() < 0.4:
+                    steps[-1]["form"] = "shared_empty"
             elif r < 0.65:
                 steps.append({"op": "wait", "tree": gen_tree(0)})
             elif r < 0.75:
                 k = slot_counter[0]
                 slot_counter[0] += 1
                 slots.append(k)
-                tree = gen_tree(0)
+                in_tree: set = set()
+                tree = gen_tree(1, in_tree)
                 if "f" in tree:
-                    tree = {"any": [tree, {"f": new_fut()}]}
+                    tree = {"any": [tree, leaf(in_tree, direct=False)]}
                 steps.append({"op": "make", "slot": k, "tree": tree})
             elif r < 0.85 and fut_counter[0] > 0:
                 steps.append({"op": "resolve_now", "f": rng.randrange(fut_counter[0]), "val": rng.randrange(1000)})
@@ -130,19 +152,26 @@ def validate(sc: dict) -> None:
     from simkit.world import InvalidScenario
 
     n = sc.get("futures", 0)
-    used: set[int] = set()
+    direct: set[int] = set()
 
-    def walk_tree(t):
+    def walk_tree(t, in_tree=None, top=True):
+        if in_tree is None:
+            in_tree = set()
         if "f" in t:
-            if not (0 <= t["f"] < n) or t["f"] in used:
-                raise InvalidScenario("future reused or out of range")
-            used.add(t["f"])
+            f = t["f"]
+            if not (0 <= f < n) or f in in_tree:
+                raise InvalidScenario("future out of range or twice in one tree")
+            in_tree.add(f)
+            if top:
+                if f in direct:
+                    raise InvalidScenario("future yielded directly by two waits")
+                direct.add(f)
             return
         kids = t.get("any") or t.get("all")
         if not kids or len(kids) < 2:
             raise InvalidScenario("combinator needs >= 2 inputs")
         for c in kids:
-            walk_tree(c)
+            walk_tree(c, in_tree, False)
 
     def walk_emit(e):
         if e["kind"] == "resolve" and not (0 <= e["f"] < n):
@@ -232,6 +261,7 @@ class _Proc(Entity):
         super().__init__(f"P{idx}")
         self.w = world
         self.idx = idx
+        self._NO_EVENTS: list = []
 
     def handle_event(self, event):
         return self._body(self.w.sc["procs"][self.idx])
@@ -257,7 +287,9 @@ class _Proc(Entity):
             if op == "delay":
                 evs = w.make_events(self.now.nanoseconds, s.get("emits", []))
                 form = s.get("form", "bare")
-                if evs and form == "single" and len(evs) == 1:
+                if not evs and form == "shared_empty":
+                    yield s["d"], self._NO_EVENTS  # one list object reused by every such yield
+                elif evs and form == "single" and len(evs) == 1:
                     yield s["d"], evs[0]
                 elif evs or form == "tuple":
                     yield s["d"], (evs if evs else None)
@@ -355,13 +387,15 @@ class RefWorld:
         self.seq = 0
         self.pending: list[dict] = []
         self.res_order = 0
+        self.bseq = 0   # combinator construction sequence
+        self.pseq = 0   # parking sequence
         self.leaf: list[tuple | None] = [None] * sc["futures"]  # (value, resolve order)
         self.waiting: list[dict] = []  # parked processes {proc, tree, built_at_order}
         self.plog = [[] for _ in sc["procs"]]
         self.hooks: list[tuple] = []
         self.notes: list[tuple] = []
         self.plain_log: list[tuple] = []
-        self.probes = {"pre_resolved_wait": 0, "resolve_twice": 0, "resolve_same_instant_as_yield": 0,
+        self.probes = {"shared_leaf_woke_two": 0, "pre_resolved_wait": 0, "resolve_twice": 0, "resolve_same_instant_as_yield": 0,
                        "nested_combinator": 0, "any_ambiguous_at_build": 0}
 
     def push(self, t, kind, **kw):
@@ -412,16 +446,24 @@ class RefWorld:
         self.leaf[f] = (val, self.res_order)
         # wake parked processes whose tree became resolved, in parking order
         still = []
-        for w in self.waiting:
+        # the engine resumes the process parked directly on this future first, then fires the
+        # combinator callbacks in the order the combinators were constructed
+        woken = 0
+        order = sorted(self.waiting, key=lambda w: (0 if w["tree"].get("f") == f else 1, w["bseq"]))
+        for w in order:
             st = self.tree_state(w["tree"], w["built"])
             if st is None:
                 still.append(w)
             else:
+                woken += 1
                 if w.get("at") == self.now:
                     self.probes["resolve_same_instant_as_yield"] += 1
                 if "any" in w["tree"]:
                     self.probes["any_race_observed"] = self.probes.get("any_race_observed", 0) + 1
                 self.push(self.now, "resume", proc=w["proc"], value=st[0], wkind=_tree_kind(w["tree"]))
+        if woken >= 2:
+            self.probes["shared_leaf_woke_two"] += 1
+        still.sort(key=lambda w: w["pseq"])
         self.waiting = still
 
     # --- events ---------------------------------------------------------
@@ -494,11 +536,12 @@ class RefWorld:
                 return
             if op in ("wait", "wait_slot"):
                 if op == "wait":
-                    tree, built = s["tree"], self.res_order
+                    self.bseq += 1
+                    tree, built, bseq = s["tree"], self.res_order, self.bseq
                     if "f" not in tree:
                         self.probes["nested_combinator"] += int(any("f" not in c for c in (tree.get("any") or tree.get("all"))))
                 else:
-                    tree, built = fr["slots"][s["slot"]]
+                    tree, built, bseq = fr["slots"][s["slot"]]
                 st = self.tree_state(tree, built)
                 if st is not None:
                     self.probes["pre_resolved_wait"] += 1
@@ -506,10 +549,13 @@ class RefWorld:
                         self.probes["any_ambiguous_at_build"] += 1
                     self.push(self.now, "resume", proc=i, value=st[0], wkind=_tree_kind(tree))
                 else:
-                    self.waiting.append({"proc": i, "tree": tree, "built": built, "at": self.now})
+                    self.pseq += 1
+                    self.waiting.append({"proc": i, "tree": tree, "built": built, "at": self.now,
+                                         "bseq": bseq, "pseq": self.pseq})
                 return
             if op == "make":
-                fr["slots"][s["slot"]] = (s["tree"], self.res_order)
+                self.bseq += 1
+                fr["slots"][s["slot"]] = (s["tree"], self.res_order, self.bseq)
             elif op == "resolve_now":
                 self.resolve_leaf(s["f"], s["val"])
             elif op == "sub":
